@@ -23,27 +23,27 @@
         'rewrites': [[r'this\s*\.floor_char_boundary\(', r't_floor(this, ', 0]]},
  'floor': {'file': 'brush-interactive/src/highlighting.rs', 'start': r'fn floor_char_boundary\(&self, index: usize\) -> usize', 'mode': 'fn_body', 'self_to': 'this', 'if_absent': 'index'},
  'skip_ahead': {'file': 'brush-interactive/src/highlighting.rs', 'start': r'fn skip_ahead\(&mut self, dest: usize\)', 'mode': 'fn_body', 'self_to': 'this',
-        'rewrites': [[r'this\.append_span\(', r't_append_span(this, ', 1]]},
+        'rewrites': [[r'this\.append_span\(', r't_append_span(this, ', 0]]},
  'set_missing': {'file': 'brush-interactive/src/highlighting.rs', 'start': r'const fn set_next_missing_kind\(&mut self, kind: HighlightKind\)', 'mode': 'fn_body', 'self_to': 'this'},
  'word_piece': {'file': 'brush-interactive/src/highlighting.rs', 'start': r'fn highlight_word_piece\(', 'mode': 'fn_body', 'self_to': 'this',
-        'rewrites': [[r'this\.append_span\(', r't_append_span(this, ', 1],
-                     [r'this\.skip_ahead\(', r't_skip_ahead(this, ', 1],
+        'rewrites': [[r'this\.append_span\(', r't_append_span(this, ', 0],
+                     [r'this\.skip_ahead\(', r't_skip_ahead(this, ', 0],
                      [r'this\.set_next_missing_kind\(', r't_set_missing(this, ', 0],
                      [r'this\.highlight_word_piece\(subpiece, HighlightKind::Quoted, global_offset\)', r'__o.anything(this)', 1],
                      [r'(?s)this\.highlight_program\(\s*command\.as_str\(\),\s*piece\.start \+ 1,?[^)]*\)', r'__o.anything(this)', 1],
                      [r'this\.highlight_program\(command\.as_str\(\), piece\.start \+ 2[^)]*\)', r'__o.anything(this)', 1]]},
  'token_step': {'file': 'brush-interactive/src/highlighting.rs', 'start': r'^\s*match token \{', 'mode': 'block',
         'rewrites': [[r'(?s)brush_parser::word::parse\(raw_word_text, &self\.shell\.parser_options\(\)\)', r'__o.parse_word(raw_word_text)', 1],
-                     [r'(?s)self\.get_kind_for_word\(\s*w\.as_str\(\),\s*&token_range,\s*&mut saw_command_token,\s*\)', r'__o.kind(&token_range, &mut saw_command_token)', 1],
-                     [r'self\.append_span\(', r't_append_span(this, ', 1],
-                     [r'(?s)self\.highlight_word_piece\(\s*word_piece,\s*default_text_kind,\s*token_range\.start,\s*\)', r't_word_piece(this, word_piece, default_text_kind, token_range.start, __o)', 1]]},
+                     [r'(?s)self\.get_kind_for_word\(\s*w\.as_str\(\),\s*&token_range,\s*&mut saw_command_token,?\s*\)', r'__o.kind(&token_range, &mut saw_command_token)', 1],
+                     [r'self\.append_span\(', r't_append_span(this, ', 0],
+                     [r'(?s)self\.highlight_word_piece\(\s*word_piece,\s*default_text_kind,\s*token_range\.start,?\s*\)', r't_word_piece(this, word_piece, default_text_kind, token_range.start, __o)', 1]]},
  'program': {'file': 'brush-interactive/src/highlighting.rs', 'start': r'fn highlight_program\(&mut self, line: &str, global_offset: usize\)', 'mode': 'fn_body', 'self_to': 'this',
         'rewrites': [[r'(?s)brush_parser::tokenize_str_with_options\(\s*line,\s*&\(this\.shell\.parser_options\(\)\.tokenizer_options\(\)\),\s*\)', r'__o.tokenize(line)', 1],
                      [r'(?s)brush_parser::word::parse\(raw_word_text, &this\.shell\.parser_options\(\)\)', r'__o.parse_word(raw_word_text)', 1],
-                     [r'(?s)this\.get_kind_for_word\(\s*w\.as_str\(\),\s*&token_range,\s*&mut saw_command_token,\s*\)', r'__o.kind(&token_range, &mut saw_command_token)', 1],
-                     [r'this\.append_span\(', r't_append_span(this, ', 1],
-                     [r'this\.skip_ahead\(', r't_skip_ahead(this, ', 1],
-                     [r'(?s)this\.highlight_word_piece\(\s*word_piece,\s*default_text_kind,\s*token_range\.start,\s*\)', r'__o.anything(this)', 1]]},
+                     [r'(?s)this\.get_kind_for_word\(\s*w\.as_str\(\),\s*&token_range,\s*&mut saw_command_token,?\s*\)', r'__o.kind(&token_range, &mut saw_command_token)', 1],
+                     [r'this\.append_span\(', r't_append_span(this, ', 0],
+                     [r'this\.skip_ahead\(', r't_skip_ahead(this, ', 0],
+                     [r'(?s)this\.highlight_word_piece\(\s*word_piece,\s*default_text_kind,\s*token_range\.start,?\s*\)', r'__o.anything(this)', 1]]},
 }
 @*/
 use super::{HighlightKind, HighlightSpan};
